@@ -768,6 +768,9 @@ pub fn supervise(prop: &dyn Property, tier: Tier, seed: u64) -> i32 {
         }
     }
     ev["coverage"]["regression_replays"] = json!(regress_count);
+    if !crate::shapes::EXCLUDED.is_empty() {
+        ev["coverage"]["corpus_definitions_that_no_longer_compile"] = json!(crate::shapes::EXCLUDED);
+    }
     let evdir = Path::new(VERIF).join("evidence");
     std::fs::create_dir_all(&evdir).ok();
     let evpath = evdir.join(format!("{}.json", prop.id()));
@@ -787,6 +790,13 @@ pub fn supervise(prop: &dyn Property, tier: Tier, seed: u64) -> i32 {
         }
         return 3;
     }
+    if !crate::shapes::EXCLUDED.is_empty() {
+        println!(
+            "CORPUS-REDUCED: {} generated #[flat] definitions that compile on the pinned tree no longer compile and were left out together with the shapes that use them: {}",
+            crate::shapes::EXCLUDED.len(),
+            crate::shapes::EXCLUDED.join(", ")
+        );
+    }
     if !violations.is_empty() {
         for (path, msg) in &violations {
             println!("violation: {}", msg);
@@ -799,6 +809,10 @@ pub fn supervise(prop: &dyn Property, tier: Tier, seed: u64) -> i32 {
             eprintln!("INCONCLUSIVE: {}", e);
         }
         return 2;
+    }
+    if !crate::shapes::EXCLUDED.is_empty() {
+        eprintln!("HARNESS ERROR: no violation on the reduced corpus, but the check cannot run what it claims (see CORPUS-REDUCED above and .build/build.log)");
+        return 3;
     }
     println!(
         "{} {}: held on {} evaluations in {} cases ({} distinct non-trivial), {:.1} s",
